@@ -1,26 +1,31 @@
 package main
 
 import (
-	"flag"
 	"fmt"
 	"os"
 	"time"
 
+	"github.com/grailbio/base/errors"
+	"github.com/grailbio/bigslice/exec"
 	"verifharness/prog"
 )
 
 func main() {
-	chunk := os.Args[1]
-	flag.Set("bigslice-internal-default-chunk-rows", chunk)
+	prog.MakeTemp = func(msg string) error { return errors.E(errors.Temporary, msg) }
+	exec.ProbationTimeout = 200 * time.Millisecond
 	p := prog.Prog{Nodes: []prog.Node{
-		{Op: "const", N: 3, Types: []string{"i", "i"}, Cols: [][]int64{{1, 2, 1, 2, 3}, {10, 20, 30, 40, 50}}},
-		{Op: "reduce", In: []int{0}, Comb: "sum"},
+		{Op: "readerfunc", N: 2, Types: []string{"i", "i"}, A: 10, B: 1, Fail: &prog.Fail{Mode: "temp", Shard: -1, Row: 2}},
 	}}
-	for _, cfg := range []prog.Cfg{{Kind: "local", Parallelism: 2}, {Kind: "bigmachine", Parallelism: 1, Procs: 1}} {
+	if len(os.Args) > 1 {
+		p.Nodes = append(p.Nodes, prog.Node{Op: "reduce", In: []int{0}, Comb: "sum"})
+	}
+	for _, cfg := range []prog.Cfg{{Kind: "local", Parallelism: 2}, {Kind: "bigmachine", Parallelism: 4, Procs: 2}} {
 		s := prog.Start(cfg)
-		o, _ := prog.RunOnce(s, p, "", 15*time.Second)
-		fmt.Println(cfg, o.Err, o.ErrMsg, o.Shards, o.Wall)
-		o, _ = prog.RunOnce(s, p, "", 15*time.Second)
-		fmt.Println(" again:", o.Err, o.ErrMsg, o.Wall)
+		o, _ := prog.RunOnce(s, p, "", 60*time.Second)
+		msg := o.ErrMsg
+		if len(msg) > 150 {
+			msg = msg[:150]
+		}
+		fmt.Println(cfg, o.Err, o.Fires, o.Wall, msg)
 	}
 }
